@@ -43,6 +43,7 @@ TEXT = {
                  "Proved over facts regenerated from parser.go/parse_helpers.go/lexer.go/split.go on every run (call graph, defer/recover shapes): no *Error panic escapes any Parse* entry point — every raise site reachable from an entry point "
                  "lies under a deferred recover whose handler cannot raise (MF.Props.C03.no_escape, entry_no_escape; the static premise is re-decided by the kernel on the regenerated tables). "
                  "Proved for the ParseType entry point (model MF/Model/TypeParse.lean, tied to memefish.ParseType by the TYPE channel): on EVERY token list, accepted or rejected, the model terminates - it answers ok or raise, never runs out of fuel, with any fuel >= 3 * (number of tokens, '>>' and '<>' counted twice) + 2, and the answer is the same for every such fuel (MF.Props.C03.parseType_terminates, parseType_fuel_stable, parseType_decides); with lexer totality, ParseType's model returns on every byte string (typeRun_total). "
+                 "Proved for the ParseExpr entry point (model MF/Model/Expr.lean of the expression ladder parseExpr ... parseLit for the fragment M1, tied to memefish.ParseExpr by the EXPR channel): on EVERY token list, accepted, rejected or garbage, the model terminates - it answers ok, raise or outside-the-fragment, never runs out of fuel, with any fuel >= 15 * (number of tokens) + 15, which is below the fuel the driver passes, and the answer is the same for every such fuel (MF.Props.C03.parseExpr_terminates, parseExpr_fuel_stable, parseExpr_decides); with lexer totality and C07.no_crash the EXPR request never answers FUEL or CRASH on any byte string (exprRun_total, exprRunRT_total). "
                  "Not proved: termination of the other productions and absence of run-time panics (nil, index) in them — every Parse* call of the predicate runs under recover with a deadline over corpus, probes, mutations, single-token edits, grafts and soups.",
         "design_ref": "DESIGN.md §4 C03",
         "note": "Trusted: lexer/splitter models (LEX, SPLIT, POS channels), the facts translator tools/extract/parserfacts.go and the abstraction MF/Model/Recovery.lean (only *Error panics modelled).",
